@@ -1,6 +1,10 @@
 from . import hubprops
+from .. import scenarios
 
-hubprops.PLAN["C01"] = [{"fam": "Routing", "num_q": 60, "num_t": 600, "depth": 80}]
+hubprops.PLAN["C01"] = [
+    {"fam": "Routing", "num_q": 50, "num_t": 600, "depth": 80},
+    {"fam": "Failures", "num_q": 60, "num_t": 600, "depth": 80},
+]
 
 
 def run(tier, seed):
